@@ -61,12 +61,16 @@ class Tracer:
         self.h = h
         kids = list(h.children(func_node))
         cfgs = [k for k in kids if isinstance(h[k].op, ops.CFG)]
-        if len(cfgs) != 1:
-            raise TraceError("function body is not a single CFG")
-        blocks = [k for k in h.children(cfgs[0]) if isinstance(h[k].op, ops.DataflowBlock)]
-        if len(blocks) != 1:
-            raise TraceError(f"{len(blocks)} dataflow blocks (tracer handles straight-line bodies only)")
-        self.block = blocks[0]
+        if len(cfgs) > 1:
+            raise TraceError("function body has several CFGs")
+        if not cfgs:
+            # a traced (@guppy.comptime) function: the dataflow graph sits directly in the FuncDefn
+            self.block, self.out_offset = func_node, 0
+        else:
+            blocks = [k for k in h.children(cfgs[0]) if isinstance(h[k].op, ops.DataflowBlock)]
+            if len(blocks) != 1:
+                raise TraceError(f"{len(blocks)} dataflow blocks (tracer handles straight-line bodies only)")
+            self.block, self.out_offset = blocks[0], 1
         bk = list(h.children(self.block))
         self.inp = next(k for k in bk if isinstance(h[k].op, ops.Input))
         self.out = next(k for k in bk if isinstance(h[k].op, ops.Output))
@@ -189,7 +193,7 @@ class Tracer:
 
     def run(self):
         h = self.h
-        outs = [self.term(self.src(self.out, i)) for i in range(1, h.num_in_ports(self.out))]
+        outs = [self.term(self.src(self.out, i)) for i in range(self.out_offset, h.num_in_ports(self.out))]
         evs = []
         for k in self.events:
             op = h[k].op
@@ -217,6 +221,17 @@ def run_case(case, scratch):
     res = {"ok": True, "funcs": {}}
     try:
         m = importlib.import_module(mod_name)
+        if case.get("mode") == "verdict":
+            # only ask the checker: accepted, or rejected with which error class
+            from guppylang_internals.error import GuppyError
+            for fn in case["funcs"]:
+                try:
+                    getattr(m, fn).check()
+                    res["funcs"][fn] = {"verdict": "accepted"}
+                except GuppyError as e:
+                    res["funcs"][fn] = {"verdict": "rejected:" + type(e.error).__name__}
+            if all(v["verdict"] != "accepted" for v in res["funcs"].values()):
+                return res
         nodes = {}
         for e in case["entry"]:
             pkg = getattr(m, e).compile_function()
@@ -228,15 +243,19 @@ def run_case(case, scratch):
         for fn in case["funcs"]:
             cands = [k for k in nodes if k == fn or k.startswith(fn + "$") or k.split(".")[-1] == fn]
             if not cands:
-                res["funcs"][fn] = {"error": f"no FuncDefn for {fn}; have {sorted(nodes)}"}
+                res["funcs"].setdefault(fn, {})["error"] = f"no FuncDefn for {fn}; have {sorted(nodes)}"
                 continue
             h, n = nodes[cands[0]]
             try:
-                res["funcs"][fn] = Tracer(h, n).run()
+                res["funcs"].setdefault(fn, {}).update(Tracer(h, n).run())
             except TraceError as e:
-                res["funcs"][fn] = {"error": f"trace: {e}"}
+                res["funcs"].setdefault(fn, {})["error"] = f"trace: {e}"
     except Exception as e:  # noqa: BLE001
+        inner = getattr(e, "error", None)
+        keep = res["funcs"] if case.get("mode") == "verdict" else {}
         res = {"ok": False, "error": f"{type(e).__name__}: {str(e)[:600]}",
+               "error_class": type(inner).__name__ if inner is not None else type(e).__name__,
+               "funcs": keep,
                "tb": traceback.format_exc()[-1500:] if os.environ.get("C07_TB") else ""}
     return res
 
